@@ -230,3 +230,779 @@ theorem decProp_seen (c : Cfg) (props : List PropDef) (p : PropDef) (t : PTree) 
     · cases h
 
 end J5V.Codec
+
+namespace J5V.Codec
+open J5V.Go J5V.Json
+
+theorem decodeScalar_null_not_some (O : Oracle) (k : ScalarKind) (pv : PVal) :
+    decodeScalar O k .null ≠ .ok (some pv) := by
+  cases k <;> simp [decodeScalar]
+
+/-! ## duplicate keys -/
+
+theorem dup_rejected (c : Cfg) (props : List PropDef) (k : Bytes) :
+    ∀ (rest : PMembers) (st : PS), k ∈ st.seen → hasNonNull k rest →
+      NotOk (decObjMembers c props rest st)
+  | .nil _, _, _, h => by simp [hasNonNull] at h
+  | .cons k' kr v rest, st, hseen, h => by
+    unfold decObjMembers
+    cases hf : findProp props k' with
+    | none => exact NotOk_err _
+    | some p =>
+      simp only []
+      have hname := findProp_name props k' p hf
+      cases hd : decProp c props p v st with
+      | err e => exact NotOk_err _
+      | panic w => exact NotOk_panic _
+      | ok st1 =>
+        simp only []
+        simp only [hasNonNull] at h
+        rcases h with ⟨hk, hv⟩ | h
+        · exfalso
+          subst hk
+          obtain ⟨e, he⟩ := duplicate_key c props p v st (by rw [hname]; exact hseen) hv
+          rw [he] at hd; cases hd
+        · exact dup_rejected c props k rest st1 ((decProp_seen c props p v st st1 hd).1 k hseen) h
+termination_by rest => sizeOf rest
+
+/-! ## what the oneof loop hands to the post-checks -/
+
+theorem decOneofMembers_found (c : Cfg) (ops : List PropDef) :
+    ∀ (ms : PMembers) (st : PS) (found : List Bytes) (ct : Option Bytes) (st' : PS)
+      (found' : List Bytes) (ct' : Option Bytes) (term : Term),
+      decOneofMembers c ops ms st found ct = .ok (st', found', ct', term) →
+      found' = found ++ oneofKeys ms ∧ ct' = finalType ms ct
+  | .nil t, st, found, ct, st', found', ct', term, h => by
+    simp only [decOneofMembers] at h; cases h
+    simp [oneofKeys, finalType]
+  | .cons k kr v rest, st, found, ct, st', found', ct', term, h => by
+    unfold decOneofMembers at h
+    by_cases hk : k = ascii "!type"
+    · rw [if_pos hk] at h
+      cases v with
+      | str s raw =>
+        simp only [] at h
+        obtain ⟨h1, h2⟩ := decOneofMembers_found c ops rest _ _ _ _ _ _ _ h
+        refine ⟨by rw [h1]; simp [oneofKeys, hk], ?_⟩
+        rw [h2]; simp [finalType, finalType.typeKeyB, hk]
+      | _ => simp at h
+    · rw [if_neg hk] at h
+      cases hf : findProp ops k with
+      | none => simp [hf] at h
+      | some p =>
+        simp only [hf] at h
+        cases hd : decProp c ops p v st with
+        | ok st1 =>
+          simp only [hd] at h
+          obtain ⟨h1, h2⟩ := decOneofMembers_found c ops rest _ _ _ _ _ _ _ h
+          refine ⟨by rw [h1]; simp [oneofKeys, hk], ?_⟩
+          rw [h2]; simp [finalType, finalType.typeKeyB, hk]
+        | err e => simp [hd] at h
+        | panic w => simp [hd] at h
+termination_by ms => sizeOf ms
+
+theorem oneofPost_fault (ops : List PropDef) (ms : PMembers) (m : Fields) (h : FaultOneofPost ops ms) :
+    NotOk (oneofPost ops ([] ++ oneofKeys ms) (finalType ms none) m) := by
+  unfold FaultOneofPost at h
+  simp only [List.nil_append]
+  cases hk : oneofKeys ms with
+  | nil =>
+    rw [hk] at h
+    cases hct : finalType ms none with
+    | none => rw [hct] at h; exact absurd h (by simp)
+    | some name =>
+      rw [hct] at h
+      obtain ⟨e, he⟩ := oneof_type_unknown ops name m h
+      rw [he]; exact NotOk_err _
+  | cons k t =>
+    cases t with
+    | nil =>
+      rw [hk] at h
+      cases hct : finalType ms none with
+      | none => rw [hct] at h; exact absurd h (by simp)
+      | some name =>
+        rw [hct] at h
+        obtain ⟨e, he⟩ := oneof_type_mismatch ops k name m h
+        rw [he]; exact NotOk_err _
+    | cons k2 t2 =>
+      obtain ⟨e, he⟩ := oneof_multiple_keys ops k k2 t2 (finalType ms none) m
+      rw [he]; exact NotOk_err _
+
+end J5V.Codec
+
+namespace J5V.Codec
+open J5V.Go J5V.Json
+
+/-! ## the fault is rejected, at any depth -/
+
+/-- closes `NotOk` goals whose head is an error -/
+macro "notok_err" : tactic => `(tactic| first | exact NotOk_err _ | exact NotOk_panic _)
+
+mutual
+/-- a faulty value is rejected as the value of a property, whatever the decoder state -/
+theorem faultV_prop (c : Cfg) (props : List PropDef) (p : PropDef) (t : PTree)
+    (h : FaultV c p.field t) (st : PS) : NotOk (decProp c props p t st) := by
+  unfold decProp
+  cases hfld : p.field with
+  | scalar k =>
+    simp only []
+    unfold decScalarProp
+    rw [hfld] at h
+    cases t with
+    | null => simp [FaultV] at h
+    | bad => exact NotOk_err _
+    | raw bs => exact NotOk_err _
+    | obj ms => simp only []; apply NotOk_bind; intro st1 _; split <;> notok_err
+    | arr xs => simp only []; apply NotOk_bind; intro st1 _; split <;> notok_err
+    | str s raw =>
+      simp only [FaultV, goTok] at h ⊢
+      obtain ⟨e, he⟩ := h
+      apply NotOk_bind; intro st1 _
+      split
+      · notok_err
+      · rw [he]; exact NotOk_err _
+    | num x =>
+      simp only [FaultV, goTok] at h ⊢
+      obtain ⟨e, he⟩ := h
+      apply NotOk_bind; intro st1 _
+      split
+      · notok_err
+      · rw [he]; exact NotOk_err _
+    | bool b =>
+      simp only [FaultV, goTok] at h ⊢
+      obtain ⟨e, he⟩ := h
+      apply NotOk_bind; intro st1 _
+      split
+      · notok_err
+      · rw [he]; exact NotOk_err _
+  | «enum» ref =>
+    simp only []
+    unfold decEnumProp
+    rw [hfld] at h
+    cases t with
+    | null => simp [FaultV] at h
+    | bad => exact NotOk_err _
+    | raw bs => exact NotOk_err _
+    | str s raw =>
+      simp only [FaultV] at h ⊢
+      apply NotOk_bind; intro st1 _
+      split
+      · notok_err
+      · cases hf : c.env.find ref with
+        | none => simp only []; notok_err
+        | some r =>
+          cases r with
+          | «enum» pfx opts =>
+            rw [hf] at h
+            simp only [] at h ⊢
+            rw [h]; exact NotOk_err _
+          | _ => simp only []; notok_err
+    | _ =>
+      simp only []
+      apply NotOk_bind; intro st1 _
+      split
+      · notok_err
+      · notok_err
+  | object ref =>
+    simp only []
+    rw [hfld] at h
+    cases t with
+    | null => simp [FaultV] at h
+    | obj ms =>
+      simp only [FaultV] at h ⊢
+      apply NotOk_bind; intro st1 _
+      split
+      · notok_err
+      · cases hf : c.env.find ref with
+        | none => simp only []; notok_err
+        | some r =>
+          cases r with
+          | object sub =>
+            rw [hf] at h
+            simp only [] at h ⊢
+            unfold finishObjectProp
+            apply NotOk_bind
+            intro a ha
+            obtain ⟨r, term⟩ := a
+            simp only []
+            split
+            · next hc =>
+              exfalso
+              have : term = .closed := by simpa [closeOk] using hc
+              subst this
+              exact faultM_members c sub ms h _ r ha
+            · notok_err
+          | _ => simp only []; notok_err
+    | _ => simp only []; notok_err
+  | oneof ref =>
+    simp only []
+    rw [hfld] at h
+    cases t with
+    | null => simp [FaultV] at h
+    | obj ms =>
+      simp only [FaultV] at h ⊢
+      apply NotOk_bind; intro st1 _
+      cases hf : c.env.find ref with
+      | none => simp only []; notok_err
+      | some r =>
+        cases r with
+        | oneof ops =>
+          rw [hf] at h
+          simp only [] at h ⊢
+          unfold finishOneofProp
+          apply NotOk_bind
+          intro a ha
+          obtain ⟨r, found, ct, term⟩ := a
+          simp only []
+          split
+          · notok_err
+          · obtain ⟨hfound, hct⟩ := decOneofMembers_found c ops ms _ _ _ _ _ _ _ ha
+            apply NotOk_bind
+            intro tp htp
+            split
+            · next hc =>
+              exfalso
+              have hterm : term = .closed := by simpa [closeOk] using hc
+              subst hterm
+              rcases h with h | h
+              · exact faultO_members c ops ms h _ _ _ r found ct ha
+              · rw [hfound, hct] at htp
+                exact oneofPost_fault ops ms r.m h tp htp
+            · notok_err
+        | _ => simp only []; notok_err
+    | _ => simp only []; notok_err
+  | any pb =>
+    simp only []
+    rw [hfld] at h
+    cases t with
+    | null => simp [FaultV] at h
+    | obj ms => simp [FaultV] at h
+    | _ => simp only []; notok_err
+  | array item =>
+    simp only []
+    rw [hfld] at h
+    cases t with
+    | null => simp [FaultV] at h
+    | arr xs =>
+      simp only [FaultV] at h ⊢
+      apply NotOk_bind; intro st1 _
+      split
+      · notok_err
+      · apply NotOk_bind; intro _ _
+        unfold finishArrayProp
+        apply NotOk_bind
+        intro a ha
+        obtain ⟨l, term⟩ := a
+        simp only []
+        split
+        · next hc =>
+          exfalso
+          have : term = .closed := by simpa [closeOk] using hc
+          subst this
+          exact faultE_elems c item xs h _ l ha
+        · notok_err
+    | _ => simp only []; notok_err
+  | map item =>
+    simp only []
+    rw [hfld] at h
+    cases t with
+    | null => simp [FaultV] at h
+    | obj ms =>
+      simp only [FaultV] at h ⊢
+      apply NotOk_bind; intro st1 _
+      split
+      · notok_err
+      · apply NotOk_bind; intro _ _
+        unfold finishMapProp
+        apply NotOk_bind
+        intro a ha
+        obtain ⟨l, term⟩ := a
+        simp only []
+        split
+        · next hc =>
+          exfalso
+          have : term = .closed := by simpa [closeOk] using hc
+          subst this
+          exact faultMap_members c item ms h _ l ha
+        · notok_err
+    | _ => simp only []; notok_err
+termination_by sizeOf t
+
+/-- the members of an object with a fault never end in a closed, successful loop -/
+theorem faultM_members (c : Cfg) (props : List PropDef) (ms : PMembers) (h : FaultM c props ms)
+    (st : PS) : ∀ r, decObjMembers c props ms st ≠ .ok (r, .closed) := by
+  intro r
+  cases ms with
+  | nil term =>
+    simp only [FaultM] at h
+    unfold decObjMembers
+    split
+    · intro hc; cases hc
+    · intro hc; cases hc; exact h rfl
+  | cons k kr v rest =>
+    simp only [FaultM] at h
+    unfold decObjMembers
+    cases hf : findProp props k with
+    | none => intro hc; cases hc
+    | some p =>
+      simp only []
+      cases hd : decProp c props p v st with
+      | err e => intro hc; cases hc
+      | panic w => intro hc; cases hc
+      | ok st1 =>
+        simp only []
+        rcases h with h | ⟨p', hp', hv⟩ | ⟨hv, hdup⟩ | h
+        · rw [hf] at h; cases h
+        · rw [hf] at hp'; cases hp'
+          exact absurd hd (faultV_prop c props p v hv st st1)
+        · intro hc
+          have hseen := (decProp_seen c props p v st st1 hd).2 hv
+          rw [findProp_name props k p hf] at hseen
+          exact dup_rejected c props k rest st1 hseen hdup _ hc
+        · exact faultM_members c props rest h st1 r
+termination_by sizeOf ms
+
+theorem faultO_members (c : Cfg) (ops : List PropDef) (ms : PMembers) (h : FaultO c ops ms)
+    (st : PS) (found : List Bytes) (ct : Option Bytes) :
+    ∀ r f' ct', decOneofMembers c ops ms st found ct ≠ .ok (r, f', ct', .closed) := by
+  intro r f' ct'
+  cases ms with
+  | nil term =>
+    simp only [FaultO] at h
+    unfold decOneofMembers
+    intro hc; cases hc; exact h rfl
+  | cons k kr v rest =>
+    simp only [FaultO] at h
+    unfold decOneofMembers
+    by_cases hk : k = ascii "!type"
+    · rw [if_pos hk]
+      cases v with
+      | str s raw =>
+        simp only []
+        rcases h with ⟨_, hns⟩ | ⟨hne, _⟩ | ⟨hne, _⟩ | h
+        · exact absurd rfl (hns s raw)
+        · exact absurd hk hne
+        · exact absurd hk hne
+        · exact faultO_members c ops rest h st found (some s) r f' ct'
+      | _ => intro hc; cases hc
+    · rw [if_neg hk]
+      cases hf : findProp ops k with
+      | none => intro hc; cases hc
+      | some p =>
+        simp only []
+        cases hd : decProp c ops p v st with
+        | err e => intro hc; cases hc
+        | panic w => intro hc; cases hc
+        | ok st1 =>
+          simp only []
+          rcases h with ⟨he, _⟩ | ⟨_, hnone⟩ | ⟨_, p', hp', hv⟩ | h
+          · exact absurd he hk
+          · rw [hf] at hnone; cases hnone
+          · rw [hf] at hp'; cases hp'
+            exact absurd hd (faultV_prop c ops p v hv st st1)
+          · exact faultO_members c ops rest h st1 (found ++ [k]) ct r f' ct'
+termination_by sizeOf ms
+
+theorem faultE_elems (c : Cfg) (item : Field) (xs : PElems) (h : FaultE c item xs)
+    (acc : List PVal) : ∀ r, decElems c item xs acc ≠ .ok (r, .closed) := by
+  intro r
+  cases xs with
+  | nil term =>
+    simp only [FaultE] at h
+    unfold decElems
+    split
+    · intro hc; cases hc
+    · intro hc; cases hc; exact h rfl
+  | cons v rest =>
+    simp only [FaultE] at h
+    -- either the element itself is rejected, or the fault is later
+    have hitem : (v = .null ∨ FaultV c item v) → decElems c item (.cons v rest) acc ≠ .ok (r, .closed) := by
+      intro hv
+      unfold decElems
+      cases item with
+      | scalar k =>
+        simp only []
+        cases hg : goTok v with
+        | none => intro hc; cases hc
+        | some tok =>
+          simp only []
+          rcases hv with rfl | hv
+          · simp only [goTok, Option.some.injEq] at hg; subst hg
+            cases hd : decodeScalar c.O k .null with
+            | ok o =>
+              cases o with
+              | none => intro hc; cases hc
+              | some pv => exact absurd hd (decodeScalar_null_not_some c.O k pv)
+            | err e => intro hc; cases hc
+            | panic w => intro hc; cases hc
+          · have : ∃ e, decodeScalar c.O k tok = .err e := by
+              cases v <;> simp only [FaultV, hg, goTok] at hv hg <;> first | (cases hg; exact hv) | exact hv | cases hg
+            obtain ⟨e, he⟩ := this
+            rw [he]; intro hc; cases hc
+      | «enum» ref =>
+        simp only []
+        rcases hv with rfl | hv
+        · intro hc; simp at hc
+        · cases v with
+          | str s raw =>
+            cases hf : c.env.find ref with
+            | none => intro hc; simp [hf] at hc
+            | some rt =>
+              cases rt with
+              | «enum» pfx opts =>
+                simp only [FaultV, hf] at hv
+                simp only [hv]; intro hc; cases hc
+              | _ => intro hc; simp at hc
+          | _ => intro hc; simp at hc
+      | object ref =>
+        simp only []
+        cases hf : c.env.find ref with
+        | none => intro hc; simp at hc
+        | some rt =>
+          cases rt with
+          | object sub =>
+            simp only []
+            have hno : NotOk (decObject c sub v) := faultV_decObject c ref sub v hf hv
+            cases hd : decObject c sub v with
+            | ok fs => exact absurd hd (hno fs)
+            | err e => intro hc; cases hc
+            | panic w => intro hc; cases hc
+          | _ => intro hc; simp at hc
+      | oneof ref =>
+        simp only []
+        cases hf : c.env.find ref with
+        | none => intro hc; simp at hc
+        | some rt =>
+          cases rt with
+          | oneof ops =>
+            simp only []
+            have hno : NotOk (decOneof c ops v) := faultV_decOneof c ref ops v hf hv
+            cases hd : decOneof c ops v with
+            | ok fs => exact absurd hd (hno fs)
+            | err e => intro hc; cases hc
+            | panic w => intro hc; cases hc
+          | _ => intro hc; simp at hc
+      | _ => intro hc; simp at hc
+    rcases h with h | h | h
+    · exact hitem (Or.inl h)
+    · exact hitem (Or.inr h)
+    · -- the fault is in a later element
+      unfold decElems
+      cases item with
+      | scalar k =>
+        simp only []
+        cases goTok v with
+        | none => intro hc; cases hc
+        | some tok =>
+          simp only []
+          cases decodeScalar c.O k tok with
+          | ok o =>
+            cases o with
+            | none => intro hc; cases hc
+            | some pv => exact faultE_elems c (.scalar k) rest h _ r
+          | err e => intro hc; cases hc
+          | panic w => intro hc; cases hc
+      | «enum» ref =>
+        simp only []
+        split
+        · split
+          · exact faultE_elems c (.enum ref) rest h _ r
+          · intro hc; cases hc
+        · intro hc; cases hc
+      | object ref =>
+        simp only []
+        split
+        · split
+          · exact faultE_elems c (.object ref) rest h _ r
+          · intro hc; cases hc
+          · intro hc; cases hc
+        · intro hc; cases hc
+      | oneof ref =>
+        simp only []
+        split
+        · split
+          · exact faultE_elems c (.oneof ref) rest h _ r
+          · intro hc; cases hc
+          · intro hc; cases hc
+        · intro hc; cases hc
+      | _ => intro hc; simp at hc
+termination_by sizeOf xs
+
+theorem faultMap_members (c : Cfg) (item : Field) (ms : PMembers) (h : FaultMap c item ms)
+    (acc : List (Bytes × PVal)) : ∀ r, decMapMembers c item ms acc ≠ .ok (r, .closed) := by
+  intro r
+  cases ms with
+  | nil term =>
+    simp only [FaultMap] at h
+    unfold decMapMembers
+    split
+    · intro hc; cases hc
+    · intro hc; cases hc; exact h rfl
+  | cons k kr v rest =>
+    simp only [FaultMap] at h
+    have hitem : (v = .null ∨ FaultV c item v) →
+        decMapMembers c item (.cons k kr v rest) acc ≠ .ok (r, .closed) := by
+      intro hv
+      unfold decMapMembers
+      cases item with
+      | scalar sk =>
+        simp only []
+        cases hg : goTok v with
+        | none => intro hc; cases hc
+        | some tok =>
+          simp only []
+          rcases hv with rfl | hv
+          · simp only [goTok, Option.some.injEq] at hg; subst hg
+            cases hd : decodeScalar c.O sk .null with
+            | ok o =>
+              cases o with
+              | none => intro hc; cases hc
+              | some pv => exact absurd hd (decodeScalar_null_not_some c.O sk pv)
+            | err e => intro hc; cases hc
+            | panic w => intro hc; cases hc
+          · have : ∃ e, decodeScalar c.O sk tok = .err e := by
+              cases v <;> simp only [FaultV, hg, goTok] at hv hg <;> first | (cases hg; exact hv) | exact hv | cases hg
+            obtain ⟨e, he⟩ := this
+            rw [he]; intro hc; cases hc
+      | «enum» ref =>
+        simp only []
+        rcases hv with rfl | hv
+        · intro hc; simp at hc
+        · cases v with
+          | str s raw =>
+            cases hf : c.env.find ref with
+            | none => intro hc; simp [hf] at hc
+            | some rt =>
+              cases rt with
+              | «enum» pfx opts =>
+                simp only [FaultV, hf] at hv
+                simp only [hv]; intro hc; cases hc
+              | _ => intro hc; simp at hc
+          | _ => intro hc; simp at hc
+      | object ref =>
+        simp only []
+        split
+        · intro hc; cases hc
+        · cases hf : c.env.find ref with
+          | none => intro hc; simp at hc
+          | some rt =>
+            cases rt with
+            | object sub =>
+              simp only []
+              cases hd : decObject c sub v with
+              | ok fs => exact absurd hd (faultV_decObject c ref sub v hf hv fs)
+              | err e => intro hc; cases hc
+              | panic w => intro hc; cases hc
+            | _ => intro hc; simp at hc
+      | oneof ref =>
+        simp only []
+        split
+        · intro hc; cases hc
+        · cases hf : c.env.find ref with
+          | none => intro hc; simp at hc
+          | some rt =>
+            cases rt with
+            | oneof ops =>
+              simp only []
+              cases hd : decOneof c ops v with
+              | ok fs => exact absurd hd (faultV_decOneof c ref ops v hf hv fs)
+              | err e => intro hc; cases hc
+              | panic w => intro hc; cases hc
+            | _ => intro hc; simp at hc
+      | _ => intro hc; simp at hc
+    rcases h with h | h | h
+    · exact hitem (Or.inl h)
+    · exact hitem (Or.inr h)
+    · unfold decMapMembers
+      cases item with
+      | scalar sk =>
+        simp only []
+        cases goTok v with
+        | none => intro hc; cases hc
+        | some tok =>
+          simp only []
+          cases decodeScalar c.O sk tok with
+          | ok o =>
+            cases o with
+            | none => intro hc; cases hc
+            | some pv =>
+              simp only []
+              split
+              · intro hc; cases hc
+              · exact faultMap_members c (.scalar sk) rest h _ r
+          | err e => intro hc; cases hc
+          | panic w => intro hc; cases hc
+      | «enum» ref =>
+        simp only []
+        split
+        · split
+          · split
+            · intro hc; cases hc
+            · exact faultMap_members c (.enum ref) rest h _ r
+          · intro hc; cases hc
+        · intro hc; cases hc
+      | object ref =>
+        simp only []
+        split
+        · intro hc; cases hc
+        · split
+          · split
+            · exact faultMap_members c (.object ref) rest h _ r
+            · intro hc; cases hc
+            · intro hc; cases hc
+          · intro hc; cases hc
+      | oneof ref =>
+        simp only []
+        split
+        · intro hc; cases hc
+        · split
+          · split
+            · exact faultMap_members c (.oneof ref) rest h _ r
+            · intro hc; cases hc
+            · intro hc; cases hc
+          · intro hc; cases hc
+      | _ => intro hc; simp at hc
+termination_by sizeOf ms
+
+/-- a faulty (or `null`) value is rejected as an array element / map value of object type -/
+theorem faultV_decObject (c : Cfg) (ref : String) (sub : List PropDef) (v : PTree)
+    (hf : c.env.find ref = some (.object sub)) (hv : v = .null ∨ FaultV c (.object ref) v) :
+    NotOk (decObject c sub v) := by
+  unfold decObject
+  rcases hv with rfl | hv
+  · exact NotOk_err _
+  · cases v with
+    | obj ms =>
+      simp only [FaultV, hf] at hv
+      simp only []
+      unfold finishObject
+      cases hr : decObjMembers c sub ms { m := [], seen := [] } with
+      | ok a =>
+        obtain ⟨r', term⟩ := a
+        simp only []
+        split
+        · next hcl =>
+          exfalso
+          have : term = .closed := by simpa [closeOk] using hcl
+          subst this
+          exact faultM_members c sub ms hv _ r' hr
+        · exact NotOk_err _
+      | err e => exact NotOk_err _
+      | panic w => exact NotOk_panic _
+    | _ => exact NotOk_err _
+termination_by sizeOf v
+
+theorem faultV_decOneof (c : Cfg) (ref : String) (ops : List PropDef) (v : PTree)
+    (hf : c.env.find ref = some (.oneof ops)) (hv : v = .null ∨ FaultV c (.oneof ref) v) :
+    NotOk (decOneof c ops v) := by
+  unfold decOneof
+  rcases hv with rfl | hv
+  · exact NotOk_err _
+  · cases v with
+    | obj ms =>
+      simp only [FaultV, hf] at hv
+      simp only []
+      unfold finishOneof
+      cases hr : decOneofMembers c ops ms { m := [], seen := [] } [] none with
+      | ok a =>
+        obtain ⟨r', found, ct, term⟩ := a
+        simp only []
+        split
+        · exact NotOk_err _
+        · obtain ⟨hfound, hct⟩ := decOneofMembers_found c ops ms _ _ _ _ _ _ _ hr
+          cases hpost : oneofPost ops found ct r'.m with
+          | ok tp =>
+            simp only []
+            split
+            · next hcl =>
+              exfalso
+              have hterm : term = .closed := by simpa [closeOk] using hcl
+              subst hterm
+              rcases hv with hv | hv
+              · exact faultO_members c ops ms hv _ _ _ r' found ct hr
+              · rw [hfound, hct] at hpost
+                exact oneofPost_fault ops ms r'.m hv tp hpost
+            · exact NotOk_err _
+          | err e => exact NotOk_err _
+          | panic w => exact NotOk_panic _
+      | err e => exact NotOk_err _
+      | panic w => exact NotOk_panic _
+    | _ => exact NotOk_err _
+termination_by sizeOf v
+
+end
+
+end J5V.Codec
+
+namespace J5V.Codec
+open J5V.Go J5V.Json
+
+theorem faultRoot_notOk (c : Cfg) (root : String) (t : PTree) (h : FaultRoot c root t) :
+    NotOk (decRootTree c root t) := by
+  unfold decRootTree
+  unfold FaultRoot at h
+  cases hf : c.env.find root with
+  | none => exact NotOk_err _
+  | some r =>
+    rw [hf] at h
+    cases r with
+    | object props =>
+      simp only [] at h ⊢
+      cases t with
+      | obj ms =>
+        simp only [] at h ⊢
+        unfold finishObject
+        cases hr : decObjMembers c props ms { m := [], seen := [] } with
+        | ok a =>
+          obtain ⟨r', term⟩ := a
+          simp only []
+          split
+          · next hcl =>
+            exfalso
+            have : term = .closed := by simpa [closeOk] using hcl
+            subst this
+            exact faultM_members c props ms h _ r' hr
+          · exact NotOk_err _
+        | err e => exact NotOk_err _
+        | panic w => exact NotOk_panic _
+      | _ => exact NotOk_err _
+    | oneof ops =>
+      simp only [] at h ⊢
+      cases t with
+      | obj ms =>
+        simp only [] at h ⊢
+        unfold finishOneof
+        cases hr : decOneofMembers c ops ms { m := [], seen := [] } [] none with
+        | ok a =>
+          obtain ⟨r', found, ct, term⟩ := a
+          simp only []
+          split
+          · exact NotOk_err _
+          · obtain ⟨hfound, hct⟩ := decOneofMembers_found c ops ms _ _ _ _ _ _ _ hr
+            cases hpost : oneofPost ops found ct r'.m with
+            | ok tp =>
+              simp only []
+              split
+              · next hcl =>
+                exfalso
+                have hterm : term = .closed := by simpa [closeOk] using hcl
+                subst hterm
+                rcases h with h | h
+                · exact faultO_members c ops ms h _ _ _ r' found ct hr
+                · rw [hfound, hct] at hpost
+                  exact oneofPost_fault ops ms r'.m h tp hpost
+              · exact NotOk_err _
+            | err e => exact NotOk_err _
+            | panic w => exact NotOk_panic _
+        | err e => exact NotOk_err _
+        | panic w => exact NotOk_panic _
+      | _ => exact NotOk_err _
+    | _ => exact NotOk_err _
+
+/-- **a document with a fault is rejected with an error** — not accepted, not partially accepted,
+no panic -/
+theorem fault_rejected (c : Cfg) (hc : c.env.itemsOk = true) (root : String) (t : PTree)
+    (h : FaultRoot c root t) : ∃ e, decRootTree c root t = .err e :=
+  err_of_notOk_np _ (faultRoot_notOk c root t h) (decRootTree_np c hc root t)
+
+end J5V.Codec
